@@ -194,6 +194,17 @@ func ForgeLightBlock(chainID string, header types.Header, vals *types.ValidatorS
 	return &types.LightBlock{SignedHeader: &types.SignedHeader{Header: &h, Commit: commit}, ValidatorSet: vals.Copy()}
 }
 
+// RepeatedValSet is a validator set that lists ring key `key` k times with the given power. types.NewValidatorSet
+// refuses duplicates, but ValidatorSetFromProto / ValidatorSet.ValidateBasic do not, so a forged light block may
+// carry such a set (its hash is simply the hash of the repeated entries).
+func RepeatedValSet(key int, power int64, k int) *types.ValidatorSet {
+	vals := make([]*types.Validator, k)
+	for i := range vals {
+		vals[i] = types.NewValidator(Key(key).PubKey(), power)
+	}
+	return &types.ValidatorSet{Validators: vals, Proposer: vals[0].Copy()}
+}
+
 // ---------------------------------------------------------------------------------------------------------------
 // light-client attacks
 
